@@ -113,6 +113,34 @@ def constructs(prog, f, memo=None):
     return out
 
 
+def constructs_deep(prog, g, depth=2, _seen=None):
+    """Aggregates built by g, by the closures it creates, and by the
+    hand-written helpers it calls (bounded depth): what a call to g may
+    construct on the caller's behalf."""
+    memo = getattr(prog, "_constructs_deep", None)
+    if memo is None:
+        memo = prog._constructs_deep = {}
+    key = (g.path, depth)
+    if key in memo:
+        return memo[key]
+    seen = _seen or set()
+    if g.path in seen:
+        return set()
+    seen = seen | {g.path}
+    out = set(constructs(prog, g))
+    for h in prog.closures_of(g.path):
+        out |= constructs(prog, h)
+    if depth > 0:
+        for c in g.calls():
+            if c.is_ptr:
+                continue
+            h = prog.fns.get(c.res)
+            if h is not None and h.full and not h.generated and not h.is_closure and len(h.blocks) < 400:
+                out |= constructs_deep(prog, h, depth - 1, seen)
+    memo[key] = out
+    return out
+
+
 def block_constructs(prog, f, bb):
     """(adt, variant) aggregates built in block bb, including by a closure of
     this function called from bb."""
@@ -126,6 +154,7 @@ def block_constructs(prog, f, bb):
         members = getattr(f, "members", {f.root_fn().path})
         if g is not None and g.full and g.is_closure and g.root_fn().path in members:
             out |= constructs(prog, g)
+
         # combinators: a closure or constructor handed to the call
         # (`.map(Value::Int)`, `.ok_or_else(|| overflow(..))`, `.or_else(|e| ..)`)
         # may construct on behalf of this block
@@ -178,7 +207,15 @@ class PairTable:
 
     def bc(self, bb):
         if bb not in self._bc:
-            self._bc[bb] = block_constructs(self.prog, self.f, bb)
+            out = set(block_constructs(self.prog, self.f, bb))
+            # a hand-written helper called from this block constructs on its behalf
+            c = self.f.call_at(bb)
+            if c is not None and not c.is_ptr:
+                g = self.prog.fns.get(c.res)
+                if g is not None and g.full and not g.is_closure and not g.generated \
+                        and g.path != self.f.path:
+                    out |= constructs_deep(self.prog, g)
+            self._bc[bb] = out
         return self._bc[bb]
 
     def reaches(self, tup, pred):
